@@ -57,6 +57,16 @@ func AllFormats(kind gtab.Type) []Format {
 	return append([]Format(nil), gsubFormats...)
 }
 
+// AllEncodableFormats is AllFormats plus GPOS 5.1 (mark-to-ligature
+// attachment), which the library encodes and decodes but does not apply.
+func AllEncodableFormats(kind gtab.Type) []Format {
+	res := AllFormats(kind)
+	if kind == gtab.TypeGpos {
+		res = append(res, 51)
+	}
+	return res
+}
+
 // Size selects the size classes of the generated lookup list.
 type Size int
 
